@@ -438,6 +438,46 @@ def run_concat(datadir, cases):
             bad = {"type_equal": False, "values_equal": True, "got_type": tstr(got)[:300], "want_type": next(iter(types))[:300]}
         if bad:
             mism.append({"kind": "concat", "file": ",".join(files), "branch": path, "detail": [], **bad})
+    # one path STRING, two files in turn (the file at a path replaced between reads; the same relative name in two working directories):
+    # a file is decoded with its OWN streamer information, whatever was read under that name before
+    import shutil
+    import tempfile
+    pairs = cases.get("same_path_pairs") or []
+    scratch = tempfile.mkdtemp(prefix="c02_samepath_", dir=os.getcwd()) if pairs else None
+    cwd0 = os.getcwd()
+    try:
+        for fa, fb, keys in pairs:
+            ext = os.path.splitext(fa)[1]
+            for how in ("replaced", "chdir"):
+                d = tempfile.mkdtemp(dir=scratch)
+                if how == "replaced":
+                    names = [os.path.join(d, "run" + ext)] * 2
+                else:
+                    os.mkdir(os.path.join(d, "a")); os.mkdir(os.path.join(d, "b")); names = ["run" + ext] * 2
+                for k, (f, nm) in enumerate(zip((fa, fb), names)):
+                    if how == "replaced":
+                        shutil.copyfile(os.path.join(datadir, f), nm)
+                    else:
+                        os.chdir(os.path.join(d, "ab"[k])); shutil.copyfile(os.path.join(datadir, f), nm)
+                    for path in keys:
+                        n_eval += 1
+                        hashes.append(hashlib.sha1(json.dumps(["samepath", how, fa, fb, k, path]).encode()).hexdigest()[:16])
+                        want = rd(f, path)
+                        try:
+                            with uproot.open(nm) as fh:
+                                got = fh["Event"][path].array()
+                            ok = tstr(got) == tstr(want) and digest(got) == digest(want)
+                            detail = {"got_type": tstr(got)[:200], "want_type": tstr(want)[:200]}
+                        except Exception as ex:  # noqa: BLE001
+                            ok, detail = False, {"got_type": type(ex).__name__ + ": " + str(ex)[:200]}
+                        if not ok:
+                            mism.append({"kind": "same-path-other-file:" + how, "file": f"{fa}->{fb}" if k else fa, "branch": path, "detail": [k], "type_equal": False,
+                                         "values_equal": False, **detail})
+                os.chdir(cwd0)
+    finally:
+        os.chdir(cwd0)
+        if scratch:
+            shutil.rmtree(scratch, ignore_errors=True)
     return {"mismatches": mism, "evaluations": n_eval, "hashes": hashes}
 
 
